@@ -28,6 +28,9 @@ func init() {
 			"C10.R3b no WaitGroup.Wait / channel send / receive / blocking select while the state mutex is held (intraprocedural + callees to depth 3)",
 			"C10.R3c who-may-close the abort channel: only the close-once helper (non-blocking receive guard), called with the mutex held; Stop: Stopping store and abort close precede the barrier wait",
 			"C10.R3d abort and next-block channels are (re)made on every success path of the per-start preparation step",
+			"C10.R3e lock re-entrancy: no call under a mutex reaches a Lock of the same mutex of the same object",
+			"C10.R3f check-then-act: a store of Starting/Stopping is dominated by a load of the state made in the same critical section (no Unlock between the test and the transition)",
+			"C10.R6 every handler path that invokes the data source's Stop passes the refresh of the RPC layer's active flag before returning",
 			"C10.R4 abort arm closes the chain; every receiver of an intermediate chain channel forwards or closes before returning",
 			"C10.R5 unbalanced acquisitions reachable from a start step vs. releases on the failing exits of that step and of the start function",
 		},
@@ -65,6 +68,9 @@ func runC10(p *Prog, r *Report) {
 	c.ruleR3()
 	c.ruleR4()
 	c.ruleR5()
+	checkLockReentrancy(p, r, "C10.R3e")
+	c.ruleR3f()
+	c.ruleR6()
 }
 
 func (c *c10ctx) anchors() bool {
@@ -887,4 +893,122 @@ func (c *c10ctx) starterInvokes() []ssa.Instruction {
 		}
 	})
 	return out
+}
+
+// ---- R3f: precondition and transition in one critical section --------------------------------
+
+func (c *c10ctx) ruleR3f() {
+	p, r := c.p, c.r
+	stateLock := c.anyT.Obj().Name() + "." + c.lockField
+	for _, fn := range p.LibFuncs() {
+		for _, st := range StoresTo(fn, c.anyT.Obj().Name(), c.stateField) {
+			v, ok := constInt(stripConv(st.Val))
+			if !ok || (v != c.consts["Starting"] && v != c.consts["Stopping"]) {
+				continue
+			}
+			r.Fn(FuncName(fn))
+			isL := func(in ssa.Instruction) bool { return mutexFieldOf(in, "Lock") == stateLock }
+			isU := func(in ssa.Instruction) bool { return mutexFieldOf(in, "Unlock") == stateLock }
+			ls := lockStates(fn, isL, isU)
+			good := false
+			Instrs(fn, func(in ssa.Instruction) {
+				u, ok := in.(*ssa.UnOp)
+				if !ok || u.Op != token.MUL {
+					return
+				}
+				if o, f, _, ok := FieldOf(u); !ok || f != c.stateField || o != c.anyT.Obj().Name() {
+					return
+				}
+				if ls[in] != 2 || !InstrDominates(in, st) {
+					return
+				}
+				// no path load -> Unlock -> store
+				broken := false
+				for _, un := range ReachAvoiding(fn, in, func(x ssa.Instruction) bool { return x == ssa.Instruction(st) }, func(x ssa.Instruction) bool {
+					if _, isDefer := x.(*ssa.Defer); isDefer {
+						return false
+					}
+					return isU(x)
+				}) {
+					if InstrReaches(un, st) {
+						broken = true
+					}
+				}
+				if !broken {
+					good = true
+				}
+			})
+			name := map[int64]string{c.consts["Starting"]: "Starting", c.consts["Stopping"]: "Stopping"}[v]
+			r.Check(good, "C10.R3f", FuncName(fn)+" tests and sets "+name+" atomically", p.InstrPos(st),
+				"the state is read and the transition written in one critical section",
+				"the transition to "+name+" is not in the same critical section as the test of the current state: a source that ends itself (or a concurrent Start/Stop) between the test and the write is overwritten, leaving the state stuck")
+		}
+	}
+}
+
+// ---- R6: the RPC layer learns that the source stopped ------------------------------------------
+
+func (c *c10ctx) ruleR6() {
+	p, r := c.p, c.r
+	rv, err := FindRendezvous(p)
+	if err != nil {
+		r.Unk("C10.R6", "rpc anchors", "-", err.Error())
+		return
+	}
+	// the active flag: bool field of the controller tested first in the queueing function
+	ctl := rv.Ctl.Obj().Name()
+	flag := ""
+	Instrs(rv.Queue, func(in ssa.Instruction) {
+		if iff, ok := in.(*ssa.If); ok && flag == "" {
+			v := iff.Cond
+			if u, isU := v.(*ssa.UnOp); isU && u.Op == token.NOT {
+				v = u.X
+			}
+			if o, f, _, ok := FieldOf(v); ok && o == ctl {
+				flag = f
+			}
+		}
+	})
+	if flag == "" {
+		r.Unk("C10.R6", "active flag", "-", "not found")
+		return
+	}
+	clears := func(fn *ssa.Function) bool {
+		ok, _ := p.Reaches(fn, func(f *ssa.Function) bool {
+			for _, st := range StoresTo(f, ctl, flag) {
+				if cst, isC := st.Val.(*ssa.Const); isC && cst.Value != nil && cst.Value.String() == "false" {
+					return true
+				}
+			}
+			return false
+		}, 2)
+		return ok
+	}
+	n := 0
+	for _, h := range rv.Handlers {
+		Instrs(h, func(in ssa.Instruction) {
+			cc := CallOf(in)
+			if cc == nil || !cc.IsInvoke() || cc.Value.Type() != c.dsIface {
+				return
+			}
+			// does this invoke stop the source (its implementations store Stopping)?
+			if !c.allImpls(in, func(f *ssa.Function) bool { return c.stateStores(f)[c.consts["Stopping"]] }) {
+				return
+			}
+			n++
+			r.Fn(FuncName(h))
+			esc := ReachAvoiding(h, in, func(x ssa.Instruction) bool {
+				if cc := CallOf(x); cc != nil && cc.StaticCallee() != nil {
+					return clears(cc.StaticCallee())
+				}
+				return false
+			}, isReturn)
+			r.Check(len(esc) == 0, "C10.R6", FuncName(h)+" refreshes "+flag+" after Stop", p.InstrPos(in),
+				"every path after the source's Stop passes the refresh of the active flag",
+				"a return is reachable after calling the source's Stop without refreshing "+flag+": when the source had already ended by itself Stop reports an error, the RPC layer keeps believing a source is active, and no source can ever be started again")
+		})
+	}
+	if n == 0 {
+		r.Bad("C10.R6", "handler that stops the source", "-", "no RPC handler invokes the data source's Stop")
+	}
 }
